@@ -347,6 +347,18 @@ class PhaseB:
                 return  # identity default
             self.violation(g, u, chain + [(f, call["node"])], f"callable parameter `{pname}` not bound at the call site")
             return
+        if isinstance(arg, ast.Name):
+            # a named inner function whose body is a single `return <expr>` is the lambda of the same expression
+            for n_ in ast.walk(f.node):
+                if isinstance(n_, ast.FunctionDef) and n_.name == arg.id and n_ is not f.node:
+                    body = [s_ for s_ in n_.body if not (isinstance(s_, ast.Expr) and isinstance(s_.value, ast.Constant))]
+                    if len(body) == 1 and isinstance(body[0], ast.Return) and body[0].value is not None \
+                            and not n_.args.vararg and not n_.args.kwarg and not n_.args.kwonlyargs:
+                        lam = ast.Lambda(args=n_.args, body=body[0].value)
+                        ast.copy_location(lam, n_)
+                        ast.fix_missing_locations(lam)
+                        arg = lam
+                    break
         if isinstance(arg, ast.Lambda):
             if linear_lambda(arg):
                 self.okuse(f, Use_("LINEAR", arg), f"linear block map passed to {g.qualname}")
